@@ -95,8 +95,7 @@ def main():
         'not_applicable': na,
         'notes': 'Known findings are listed in /verif/known_findings.json; repaired defects are fix: commits in /repo recorded there as status=fixed.',
     }
-    if not na:
-        del m['not_applicable']
+    # (kept even when empty: every property is claimed)
     json.dump(m, open('MANIFEST.json', 'w'), indent=1)
     print('checks:', len(checks), 'not claimed:', [x['property_id'] for x in na])
 
